@@ -207,7 +207,7 @@ func pipeSplitRule(R string) RuleFunc {
 }
 
 var bytewiseTable = map[string]string{
-	"notations/jschema/scanner.stateInlineComment:s.index--":   "the line end that closes a `#` comment is read again by the state below (the comment state was entered from it); one byte back, never forward",
+	"notations/jschema/scanner.stateInlineComment:s.index--":    "the line end that closes a `#` comment is read again by the state below (the comment state was entered from it); one byte back, never forward",
 	"notations/jschema/scanner.stateMultiLineComment:s.index++": "the second and third `#` of a closing `###`, both tested by the lookahead in the condition above (index+1 < dataSize)",
 }
 
